@@ -1,18 +1,23 @@
 /-
-Model of `FormatContext::source_slice` (crates/format/src/format.rs):
+Model of `FormatContext::source_slice` (crates/format/src/format.rs, since /repo b1042e7):
 
-    line_offsets = [0] ++ [i + 1 | source[i] == '\n']          -- byte offset of each line start
-    source_slice(span) = &source[line_offsets[span.start.line] + span.start.column
-                                 .. line_offsets[span.end.line] + span.end.column]
+    line_offsets     = [0] ++ [i + 1 | source[i] == '\n']        -- byte offset of each line start
+    position_offsets = sort+dedup [(tok.span.start, tok.bytes.start), (tok.span.end, tok.bytes.end) | tok ← Lexer(source)]
+    byte_offset(p)   = position_offsets[binary_search p]           -- p is a token boundary
+                     | line_offsets[p.line] + p.column             -- fallback: p is no token boundary
+    source_slice(span) = &source[byte_offset(span.start) .. byte_offset(span.end)]
 
-The lexer's `column` is not a byte count: it advances per character by that character's display
-width (`c.width().unwrap_or(0)`, see crates/lexer/src/lexer.rs). The source is therefore modelled
-as lines of characters, each character carrying its UTF-8 byte length and the amount the lexer adds
-to `column` for it. Both are *inputs* (supplied per character by the harness from `char::len_utf8`
-and `unicode-width`); nothing here depends on a Unicode table.
+Before b1042e7 only the fallback arithmetic existed; it is wrong whenever a character in front of
+the point advances the lexer's `column` (display width) by something else than its byte length
+(finding F-C11-3: `é = 1; 99` was copied as ` 9`). The fallback is still in the code, for positions
+that are not token boundaries; `byteOfCol` models it.
+
+The source is modelled as lines of characters, each carrying its UTF-8 byte length and the amount
+the lexer adds to `column` for it; the token-boundary table is the list the lexer yields. All are
+*inputs* (supplied by the harness from `char::len_utf8`, `unicode-width` and `koto_lexer`).
 
 Used for: number literals (`Node::SmallInt | Int | Float`), every comment (`add_source_region` in
-`add_trivia_item`) and `#[fmt:skip]` regions.
+`add_trivia_item`) and `#[fmt:skip]` regions — all of which start and end on token boundaries.
 -/
 namespace KotoVerif.SrcSlice
 
@@ -52,11 +57,32 @@ structure Span where
   stop : Pos
   deriving Repr, DecidableEq
 
-/-- `line_offsets[p.line] + p.column` — a column used as if it were a byte offset. -/
-def byteOf (ls : List Line) (p : Pos) : Nat := lineOffset ls p.line + p.col
+/-- The fallback (and, before b1042e7, the only rule): `line_offsets[p.line] + p.column` — a column
+used as if it were a byte offset. -/
+def byteOfCol (ls : List Line) (p : Pos) : Nat := lineOffset ls p.line + p.col
+
+/-- `position_offsets`: token-boundary positions with their byte offsets. -/
+abbrev Table := List (Pos × Nat)
+
+/-- the entry `binary_search_by` finds (the table is sorted and deduplicated; positions are unique
+unless the lexer reports one position for two offsets, in which case this is the first). -/
+def lookup (tbl : Table) (p : Pos) : Option Nat :=
+  match tbl with
+  | [] => none
+  | (q, b) :: rest => if q = p then some b else lookup rest p
+
+/-- `byte_offset(p)` -/
+def byteOf (ls : List Line) (tbl : Table) (p : Pos) : Nat :=
+  match lookup tbl p with
+  | some b => b
+  | none => byteOfCol ls p
 
 /-- The byte range `source_slice` indexes the source with. -/
-def sourceSlice (ls : List Line) (sp : Span) : Nat × Nat := (byteOf ls sp.start, byteOf ls sp.stop)
+def sourceSlice (ls : List Line) (tbl : Table) (sp : Span) : Nat × Nat :=
+  (byteOf ls tbl sp.start, byteOf ls tbl sp.stop)
+
+/-- the range the fallback alone gives (= the whole behaviour before b1042e7) -/
+def sourceSliceCol (ls : List Line) (sp : Span) : Nat × Nat := (byteOfCol ls sp.start, byteOfCol ls sp.stop)
 
 /-- Drop exactly `n` bytes from the front; `none` when `n` is not a character boundary
 (`&source[a..b]` panics there) or lies beyond the end. -/
@@ -77,8 +103,12 @@ def sliceText (src : List Ch) (s e : Nat) : Option (List Ch) :=
   if s ≤ e then (dropBytes src s).bind (fun r => takeBytes r (e - s)) else none
 
 /-- The text `source_slice(span)` yields (`none` = panic). -/
-def sourceSliceText (ls : List Line) (sp : Span) : Option (List Ch) :=
-  sliceText ls.flatten (sourceSlice ls sp).1 (sourceSlice ls sp).2
+def sourceSliceText (ls : List Line) (tbl : Table) (sp : Span) : Option (List Ch) :=
+  sliceText ls.flatten (sourceSlice ls tbl sp).1 (sourceSlice ls tbl sp).2
+
+/-- … with the fallback alone. -/
+def sourceSliceTextCol (ls : List Line) (sp : Span) : Option (List Ch) :=
+  sliceText ls.flatten (sourceSliceCol ls sp).1 (sourceSliceCol ls sp).2
 
 /-- The position the lexer reports for the point on line `k` that follows the characters `pre`. -/
 def lexPos (k : Nat) (pre : List Ch) : Pos := { line := k, col := colLen pre }
